@@ -467,7 +467,11 @@ func (s *Server) setReturnNodes(r *krpc.Return, queryMsg krpc.Msg, querySource A
 	if queryMsg.A == nil {
 		return &krpcErrMissingArguments
 	}
+	// get_peers names its target in info_hash, find_node and get (BEP 44) in target.
 	target := int160.FromByteArray(queryMsg.A.InfoHash)
+	if queryMsg.Q == "find_node" || queryMsg.Q == "get" {
+		target = int160.FromByteArray(queryMsg.A.Target)
+	}
 	if shouldReturnNodes(queryMsg.A.Want, querySource.IP()) {
 		r.Nodes = s.makeReturnNodes(target, func(na krpc.NodeAddr) bool { return na.IP.To4() != nil })
 	}
